@@ -44,6 +44,10 @@ func forEachState(snaps []*snap, scratch string, f func(s *snap, dir string)) {
 			for i := range ch {
 				dir := filepath.Join(scratch, fmt.Sprintf("w%d-s%d", w, i))
 				os.MkdirAll(dir, 0o755)
+				if kd := os.Getenv("VERIF_KEEPDIR"); kd != "" && fmt.Sprint(snaps[i].K) == os.Getenv("VERIF_KEEPK") {
+					// debugging aid: the crash state before the restart touches it
+					snaps[i].FS.Materialise(filepath.Join(kd, fmt.Sprintf("state-k%d", snaps[i].K)))
+				}
 				f(snaps[i], dir)
 				os.RemoveAll(dir)
 			}
